@@ -52,6 +52,8 @@ pub struct SEmit {
     pub mode: u8,
     pub target: usize,
     pub refent: Option<Entity>,
+    /// second trigger target
+    pub refent2: Option<Entity>,
     pub must: BTreeSet<usize>,
     pub may: BTreeSet<usize>,
     pub sessions: Vec<u32>,
@@ -1327,7 +1329,7 @@ impl Sim {
                 self.step(&if has_s { Step::Remove { slot, k: K::S } } else { Step::Insert { slot, k: K::S } });
                 self.step(&Step::Mutate { slot, k: K::A });
                 if self.cfg.events {
-                    self.step(&Step::EmitS { kind: if what & 8 != 0 { SK::Dep } else { SK::Unord }, mode: 0, target: client, refslot: slot });
+                    self.step(&Step::EmitS { kind: if what & 8 != 0 { SK::Dep } else { SK::Unord }, mode: 0, target: client, refslot: slot, refslot2: None });
                 }
                 self.force_tick_frame();
                 self.step(&Step::Mutate { slot, k: K::A });
@@ -1445,7 +1447,7 @@ impl Sim {
     /// the entity stopped being shown to it after the event was emitted.
     fn break_refs(&mut self, e: Entity, client: Option<usize>) {
         for em in &mut self.semits {
-            if em.refent == Some(e) {
+            if em.refent == Some(e) || em.refent2 == Some(e) {
                 for i in 0..em.ref_broken.len() {
                     if client.is_none() || client == Some(i) {
                         em.ref_broken[i] = true;
@@ -1558,7 +1560,7 @@ impl Sim {
 
     /// Turns a queued `EmitS` into an emission performed by the `Update` system of the coming server frame.
     fn emit_server(&mut self, st: &Step) {
-        let Step::EmitS { kind, mode, target, refslot } = *st else { return };
+        let Step::EmitS { kind, mode, target, refslot, refslot2 } = *st else { return };
         if target >= self.clients.len() || !self.clients[target].connected {
             return;
         }
@@ -1574,6 +1576,11 @@ impl Sim {
             return;
         }
         let refent = if matches!(kind, SK::Dep | SK::Trig) { refent } else { None };
+        // a second, different target for triggers
+        let refent2 = if kind == SK::Trig && refent.is_some() { refslot2.and_then(|s| self.slots.get(s).copied().flatten()).filter(|e| Some(*e) != refent) } else { None };
+        if refent2.is_some() {
+            self.flags.insert("trigger_with_two_targets");
+        }
         self.seq += 1;
         let seq = self.seq;
         let mut must = BTreeSet::new();
@@ -1588,7 +1595,7 @@ impl Sim {
                 may.insert(i);
             }
         }
-        self.server.world_mut().resource_mut::<SEmitQueue>().0.push((kind, seq, m, refent));
+        self.server.world_mut().resource_mut::<SEmitQueue>().0.push((kind, seq, m, refent, refent2));
         let sessions = self.clients.iter().map(|c| c.session).collect();
         let n = self.clients.len();
         self.semits.push(SEmit {
@@ -1597,6 +1604,7 @@ impl Sim {
             mode,
             target,
             refent,
+            refent2,
             must,
             may,
             sessions,
@@ -1689,9 +1697,8 @@ impl Sim {
         for (k, e) in self.semits.iter().enumerate() {
             if e.pending && (replicated || e.kind == SK::Ind) {
                 let rv = (0..self.clients.len())
-                    .map(|i| match e.refent {
-                        Some(r) => (0..self.slots.len()).any(|s| self.slots[s] == Some(r) && self.marked[s] && self.visible_to(i, s)),
-                        None => true,
+                    .map(|i| {
+                        [e.refent, e.refent2].into_iter().flatten().all(|r| (0..self.slots.len()).any(|s| self.slots[s] == Some(r) && self.marked[s] && self.visible_to(i, s)))
                     })
                     .collect();
                 refvis.push((k, rv));
